@@ -48,6 +48,8 @@ def run(res, tier, seed):
 
         def chans(sw, hi=None):
             lines = l1b.default_lines(fmt, n, start, counts=wb, switch=sw, first=first)
+            for idx in (5, n - 7):       # internal-target drop-outs of the channel-3 view on two lines: telemetry, not channel selection
+                lines[idx]["ict"] = [0 if j % 3 == 0 else v for j, v in enumerate(lines[idx]["ict"])]
             if hi:
                 for l, h in zip(lines, hi):
                     l["bitfield_hi"] = h
@@ -85,6 +87,10 @@ def run(res, tier, seed):
                 if not impl.nan_eq(b, eb):
                     res.violations.append(("channel 3b of a line is not (NaN | the thermal calibration of its third sample)",
                                            dict(ctx, line_index=i, line_switch=sw[i], got=[float(x) for x in b[:3]], expected=[float(x) for x in eb[:3]])))
+                    break
+                if (sw[i] == 0 and np.all(np.isnan(b))) or (sw[i] == 1 and np.all(np.isnan(a))):
+                    res.violations.append(("a line delivers neither 3a nor 3b although its select bits name one (whole line NaN)",
+                                           dict(ctx, line_index=i, line_switch=sw[i], target_dropout_line=i in (5, n - 7))))
                     break
                 flags.append((hi[i] | sw[i], bool(np.all(np.isnan(a))), bool(np.all(np.isnan(b)))))
             # the other channels are untouched by the switch
